@@ -163,6 +163,7 @@ class Engine:
     run_timeout_s: float = 120.0
     determinism_sample: int = 24
     needs_pristine_parent: bool = False
+    isolate_runs: bool = False  # execute every run in its own fork of the (pristine) worker process
 
     def generate(self, seed: int, tier: str) -> dict:
         raise NotImplementedError
@@ -255,8 +256,11 @@ def _alarm(signum, frame):  # pragma: no cover
     raise _Timeout()
 
 
-def run_one(engine: Engine, case: dict) -> dict:
+def run_one(engine: Engine, case: dict, _inner: bool = False) -> dict:
     """Execute one case under a watchdog and return the packed outcome."""
+    if engine.isolate_runs and not _inner:
+        # no state can leak from one run into the next, so every violation replays from its case alone
+        return in_fork(run_one, engine, case, True, timeout=engine.run_timeout_s + 30)
     old = signal.signal(signal.SIGALRM, _alarm)
     signal.setitimer(signal.ITIMER_REAL, engine.run_timeout_s)
     try:
